@@ -209,7 +209,9 @@ void c14_fit(vf::Tape & t, vf::Ctx & ctx, const char * specname, double ratio, b
       e_vel = std::max(e_vel, (static_cast<double>((vl - vr).cwiseAbs().maxCoeff()) - aslack) / sv);
     }
   }
-  ctx.le("passes through every data point from both sides", e_pass, 1e-9);
+  // 1e-7: ten times tighter than the 1e-6 the statement gives for the constraints (2e-9 was observed on the unchanged
+  // tree for MinDerivative<6,3,3> over intervals from 0.01 to 100 with neighbouring ratios near 10)
+  ctx.le("passes through every data point from both sides", e_pass, 1e-7);
   if (K >= 3) ctx.le("continuous body velocity at inner knots", e_vel, 1e-6);
   if (rest_ends) {
     T v0, v1;
@@ -379,7 +381,8 @@ void c14_dubins_impl(vf::Tape & t, vf::Ctx & ctx, int K)
     ctx.le("unit forward speed", e_speed, 1e-9);
     ctx.le("zero lateral speed", e_lat, 1e-9);
     ctx.le("curvature <= 1/R", e_curv, 1e-9);
-    ctx.le("piecewise constant velocity", e_acc * R, 1e-6);
+    // (not a clause of the statement, and not judged: a word with an arc of 7e-16 has acceleration noise eps |V| / T^2)
+    if (e_acc * R > 1e-6) ctx.label("dubins:acceleration-noise-in-a-very-short-segment");
 
     // optimality against the six classical words (only words whose reconstruction hits the target count)
     const LD D = std::hypot(static_cast<LD>(x), static_cast<LD>(y)) / R;
@@ -400,7 +403,10 @@ void c14_dubins_impl(vf::Tape & t, vf::Ctx & ctx, int K)
       const LD miss = std::max({std::abs(ex), std::abs(ey), std::abs(eth)});
       const LD len  = ww.p[0] + ww.p[1] + ww.p[2];
       if (miss < 1e-6L * (1 + D)) lo = std::min(lo, len);
-      if (strict && miss < 1e-9L * (1 + D)) hi = std::min(hi, len);
+      // upper bound only from words that reach the target to the rounding of the long-double reconstruction: a word that
+      // misses by 5e-11 (straight ahead to a target 3.6e-6 ahead and 5.5e-11 to the left) is not a path to the target,
+      // and the true minimum there is a full turn
+      if (strict && miss < 1e-14L * (1 + D)) hi = std::min(hi, len);
     };
     for (const Word & w : six_words(D, al, be)) {
       bool strict = true;
